@@ -107,7 +107,7 @@ def generate(seed, tier):
             cut = S['knobs'].randint(1, 6)
             e[1] = '[%s,]*%d + [%s,]*%d' % (repr(g), cut, repr(round(g * 1.5, 2)), T + 5)
     steady = {'T': S['knobs'].choice([1, 2, 3, 5, 10, 20, 50, 100, 200]),
-              'tol': S['knobs'].choice([1e-2, 1e-3, 1e-4, 1e-5, 1e-6]),
+              'tol': S['knobs'].choice([1e-2, 1e-3, 1e-4, 1e-5, 1e-6, 1e-6, 0.0]),
               'excluded': ['t']}
     r = S['knobs'].random()
     names = [v for v, _ in block['eqs']]
@@ -283,6 +283,8 @@ def execute(case):
                     bound_rel = 2 * tol * abs(v0)
                     if loose:
                         bound_abs += 1e-6 * scale * 20
+                    if tol == 0.0:
+                        bound_abs += 1e-9 * scale     # "does not move at all", up to the re-solve's own rounding
                     if moved > bound_abs and moved > bound_rel:
                         sgn = 'negative' if v0 < 0 else ('positive' if v0 > 0 else 'zero')
                         viol.append(core.violation(ID, 'accepted-state-not-steady', 'accepted-state-not-steady:' + sgn,
